@@ -29,6 +29,9 @@ type c12BrkCase struct {
 	// each with a context deadline of HungMs milliseconds (30..80).
 	Hung   []string `json:"hung"`
 	HungMs int      `json:"hung_ms"`
+	// Gone: calls made against the server that is up but drops every connection as soon
+	// as a command arrives on it (EOF on established connections).
+	Gone []string `json:"gone,omitempty"`
 }
 
 var (
@@ -92,6 +95,32 @@ func c12Hung(t *testing.T) string {
 		cancel()
 	})
 	return c12HungAddr
+}
+
+var (
+	c12GoneOnce sync.Once
+	c12GoneAddr string
+)
+
+// c12Gone: a server that is up (the address accepts connections, so pooled connections
+// exist) but closes a connection without a reply as soon as a command arrives on it:
+// what clients see while their server is being restarted. Every call ends in EOF on an
+// established connection - a connection-level failure of another kind than the refused
+// connect of c12Dead.
+func c12Gone(t *testing.T) string {
+	c12GoneOnce.Do(func() {
+		m, err := miniredis.Run()
+		if err != nil {
+			t.Fatalf("miniredis G: %v", err)
+		}
+		m.Server().SetPreHook(func(c *server.Peer, cmd string, args ...string) bool {
+			c.Close()
+			return true
+		})
+		c12GoneAddr = m.Addr()
+		New(c12GoneAddr).Ping() // creates the wrapper's shared client of the address (see c12Renew)
+	})
+	return c12GoneAddr
 }
 
 var c12HungOps = map[string]func(r *Redis, ctx context.Context) error{
@@ -197,6 +226,10 @@ func c12BrkGen(rt *rapid.T) c12BrkCase {
 		c.Hung = append(c.Hung, hungNames[g.uni(len(hungNames))])
 	}
 	c.HungMs = 30 + g.uni(51)
+	// part (d) in 2 cases of 3: every call there costs go-redis' three retry back-offs
+	for n := 40; n > 0 && mode != 1; n-- {
+		c.Gone = append(c.Gone, deadNames[g.uni(len(deadNames))])
+	}
 	return c
 }
 
@@ -310,6 +343,44 @@ func c12BrkInterp(t *testing.T, c c12BrkCase) (v kit.Verdict) {
 			return v.Failf("breaker rejected after only %d failures (protection = 5)", hungTripped)
 		}
 		cls[fmt.Sprintf("hung-tripped-after:%02d", hungTripped)] = true
+	}
+	// (d) the server drops established connections: every call ends in EOF (after the
+	// client's own re-sends). These are connection-level failures, the breaker must start
+	// rejecting; the error handed to the caller before that is never nil / redis.Nil.
+	if len(c.Gone) > 0 {
+		rg := New(c12Gone(t))
+		goneTripped := -1
+		for i, name := range c.Gone {
+			op := c12DeadOps[name]
+			if op == nil {
+				return v.Failf("unknown gone op %q", name)
+			}
+			t0 := time.Now()
+			err := op(rg)
+			if time.Since(t0) > c12Stall {
+				cls["env:stalled-step"] = true
+				v.Excluded = true
+				return v
+			}
+			if err == nil {
+				return v.Failf("call %d (%s) succeeded against a server that drops every connection without a reply", i, name)
+			}
+			if err == red.Nil || err == context.Canceled {
+				return v.Failf("call %d (%s) against a server that drops every connection: unexpected %v", i, name, err)
+			}
+			if err == breaker.ErrServiceUnavailable {
+				goneTripped = i
+				break
+			}
+			cls["gone-error:"+err.Error()] = true
+		}
+		if goneTripped < 0 {
+			return v.Failf("%d consecutive calls that lost their connection (server drops it without a reply) never made the breaker reject", len(c.Gone))
+		}
+		if goneTripped < 6 {
+			return v.Failf("breaker rejected after only %d failures (protection = 5)", goneTripped)
+		}
+		cls[fmt.Sprintf("gone-tripped-after:%02d", goneTripped)] = true
 	}
 	v.NonTrivial = true
 	return v
@@ -518,4 +589,136 @@ func TestVerif_C12_breaker_per_command(t *testing.T) {
 	c12Setup(t)
 	kit.Run(t, "C12", "breaker-per-command", kit.Opts{Quick: 8, Thorough: 128}, c12PerCmdGen,
 		func(c c12PerCmdCase) kit.Verdict { return c12PerCmdInterp(t, c) })
+}
+
+// ---------------------------------------------------------------- UNSPECIFIED inputs (panics only)
+
+// c12UnspecCase: inputs a caller can produce but for which the statement names no
+// result, because no go-redis command corresponds: a *Redis whose exported Type field
+// is neither "node" nor "cluster" (every method then fails in getRedis), a nil node
+// handed to the blocking pops, and the exported script cache, which no command method
+// uses. Nothing is compared; a panic is the only failure (a hang ends the run).
+type c12UnspecCase struct {
+	Type  string    `json:"type"`
+	Via   int       `json:"via"` // 0: field assignment after New, 1: a caller-written Option
+	Steps []c12Step `json:"steps"`
+	Sha   []string  `json:"sha,omitempty"` // script cache operations: "set:<i>:<sha>" / "get:<i>"
+}
+
+func c12UnspecGen(rt *rapid.T) c12UnspecCase {
+	g := &c12G{rt: rt, bit: rapid.Bool()}
+	c := c12UnspecCase{Type: g.from("type", "", "sentinel", "NODE", "cluster ", "node,cluster"), Via: g.uni(2)}
+	for _, name := range c12Names {
+		s := c12Table[name].gen(g)
+		s.C = name
+		s.X = g.uni(2) == 1
+		c.Steps = append(c.Steps, s)
+	}
+	for _, name := range []string{"Ping", "Pipelined"} {
+		c.Steps = append(c.Steps, c12Step{C: name, X: g.uni(2) == 1})
+	}
+	for n := g.uni(6); n > 0; n-- {
+		if g.uni(2) == 0 {
+			c.Sha = append(c.Sha, fmt.Sprintf("set:%d:%s", g.uni(len(c12Scripts)), g.from("sha", "", "abc", "0123456789abcdef0123456789abcdef01234567")))
+		} else {
+			c.Sha = append(c.Sha, fmt.Sprintf("get:%d", g.uni(len(c12Scripts))))
+		}
+	}
+	return c
+}
+
+func c12UnspecInterp(t *testing.T, c c12UnspecCase) (v kit.Verdict) {
+	tw := c12Setup(t)
+	cls := map[string]bool{}
+	var cur string
+	defer func() {
+		if p := recover(); p != nil {
+			v.Fail = fmt.Sprintf("%s panicked: %v", cur, p)
+		}
+		for k := range cls {
+			v.Classes = append(v.Classes, k)
+		}
+		sort.Strings(v.Classes)
+	}()
+	mk := func() *Redis {
+		if c.Via == 1 {
+			return New(tw.mA.Addr(), func(r *Redis) { r.Type = c.Type })
+		}
+		r := New(tw.mA.Addr())
+		r.Type = c.Type
+		return r
+	}
+	errs := 0
+	for _, s := range c.Steps {
+		e := &c12Env{tw: tw, r: mk(), classes: map[string]bool{}, types: map[string]bool{}}
+		ctx, cancel := c12Ctx(c12Step{X: s.X})
+		cur = fmt.Sprintf("Type %q, %s", c.Type, c12Show(s))
+		var err error
+		switch {
+		case s.C == "Ping":
+			if s.X {
+				e.r.PingCtx(ctx)
+			} else {
+				e.r.Ping()
+			}
+		case s.C == "Pipelined":
+			fn := func(p red.Pipeliner) error { p.Get(ctx, "k"); return nil }
+			if s.X {
+				err = e.r.PipelinedCtx(ctx, fn)
+			} else {
+				err = e.r.Pipelined(fn)
+			}
+		case len(s.C) >= 5 && s.C[:5] == "BLPop":
+			// the blocking pops do not look at Type; their unspecified input is the nil node
+			cur = fmt.Sprintf("nil node, %s", c12Show(s))
+			switch s.C {
+			case "BLPop":
+				if s.X {
+					_, err = e.r.BLPopCtx(ctx, nil, s.K[0])
+				} else {
+					_, err = e.r.BLPop(nil, s.K[0])
+				}
+			case "BLPopEx":
+				if s.X {
+					_, _, err = e.r.BLPopExCtx(ctx, nil, s.K[0])
+				} else {
+					_, _, err = e.r.BLPopEx(nil, s.K[0])
+				}
+			default:
+				if s.X {
+					_, err = e.r.BLPopWithTimeoutCtx(ctx, nil, time.Second, s.K[0])
+				} else {
+					_, err = e.r.BLPopWithTimeout(nil, time.Second, s.K[0])
+				}
+			}
+			cls["nil-node:"+s.C] = true
+		default:
+			_, err = c12Table[s.C].wrap(e, ctx, s)
+			cls["unsupported-type:"+s.C] = true
+		}
+		cancel()
+		if err != nil {
+			errs++
+		}
+	}
+	for _, op := range c.Sha {
+		cur = "script cache " + op
+		var i int
+		var sha string
+		if _, err := fmt.Sscanf(op, "get:%d", &i); err == nil {
+			GetScriptCache().GetSha(c12Scripts[i%len(c12Scripts)])
+			cls["scriptcache:get"] = true
+		} else if n, _ := fmt.Sscanf(op, "set:%d:%s", &i, &sha); n >= 1 {
+			GetScriptCache().SetSha(c12Scripts[i%len(c12Scripts)], sha)
+			cls["scriptcache:set"] = true
+		}
+	}
+	v.NonTrivial = errs >= 50
+	return v
+}
+
+func TestVerif_C12_unspecified(t *testing.T) {
+	c12Setup(t)
+	kit.Run(t, "C12", "unspecified-no-panic", kit.Opts{Quick: 24, Thorough: 480}, c12UnspecGen,
+		func(c c12UnspecCase) kit.Verdict { return c12UnspecInterp(t, c) })
 }
